@@ -12,3 +12,15 @@ add("C02", "model_checking",
     "Every corpus of up to 3 (thorough 4) documents over 7 token templates x 3 timestamps is ingested through the real write path into an active fraction and sealed; every query tree of <=2 leaves over 10 atoms with NOT at every position (plus 3-leaf trees), every [from,to] over a border grid, both orders, limits {0,1,2,n,n+1} and total on/off are rendered to SeqQL, parsed by the real parser, executed by the real engine and compared with refdb (ID sequence, total). The merge nodes are additionally enumerated over all pairs/triples of sorted sub-lists. The defects this property is about (off-by-one borders, dedup, NOT ranges, limit/order interplay) all have witnesses of this size.",
     "Trusted: refdb. Quick thins two symmetric dimensions (RID direction, order for the logic queries) by alternation, stated in the evidence rule; thorough does the full cross product up to n=3.",
     "DESIGN.md §3 C02", "E3-smallscope")
+
+add("C03", "model_checking",
+    "exhaustive shape-directed enumeration of corpora under scaled on-disk block constants (overlay), metamorphic comparison of 6 fraction forms + refdb reference",
+    "The real sealing/loading code is recompiled with 4 IDs per block, 4 postings per LID block and 64-byte token blocks, so that every block-straddling path (continued LID blocks, second ID block, multi-block token dictionaries, block-min shortcuts) is reached by corpora of <=13 documents; all corpus shapes (n, hot-token postings, arrival order, bulk split, dictionary size, skip-sort, zstd level) are enumerated and every request (search in both orders and limits, time borders at every MID, histograms, 6 aggregation kinds, fetch lists) must give the same answer on the active fraction, the freshly sealed one, the one reopened from files (header and cached-info paths) and both reopened forms with a 1-byte cache budget evicted after every request, and equal refdb where the model defines the answer.",
+    "Trusted: the code is parametric in the four block-size constants (they are used only as sizes); refdb. Real-constant large shapes are not enumerated (stated gap, DESIGN §5).",
+    "DESIGN.md §3 C03", "E3-smallscope")
+
+add("C14", "model_checking",
+    "exhaustive enumeration of small occupancy maps / bitmasks / fraction borders and of real fraction layouts with documents at fixed ages, vs a search over all documents",
+    "Bitmask.HasBitsIn is decided for all sizes<=18, all (l,r), all masks (<=10 bits fully, <=2 set bits above); MIDsDistribution soundness for all small maps, added MID subsets and query intervals, directly and after the JSON round trip used by .frac-cache; on real fractions (scaled block constants) with documents >24h, >10min before creation and after it, in one or two fractions, active / sealed / reloaded through .frac-cache, Searcher.SearchDocs (fraction skipping + LID border narrowing) equals the reference search over every interval of a border grid.",
+    "Trusted: refdb; wall clock only positions the documents (ages are relative to now), no timing decides a verdict. Only soundness of pruning is required, not precision.",
+    "DESIGN.md §3 C14", "E3-smallscope")
